@@ -192,3 +192,73 @@ def queue_backlog_probe(n=700, stall=0.25):
                 sk.close()
             except Exception:
                 pass
+
+
+def callback_write_probe(rng):
+    """frames written from a protocol callback (on the reactor's own thread, e.g. the OP_AUTH reply) and frames written by
+    another thread go through the SAME FIFO: a frame whose write() had returned before the callback wrote its own must reach
+    the socket first.  The real Reactor.run_forever runs on this thread with a scripted socket and a scripted select();
+    the producer is a real second thread.  -> failure text or None"""
+    import threading
+    A = [bytes([65 + k]) * rng.randint(5, 40) for k in range(rng.randint(1, 3))]
+    B = [bytes([97 + k]) * rng.randint(5, 40) for k in range(rng.randint(1, 2))]
+    accept = rng.choice([1, 3, 7, 1000])
+
+    class Sock(FakeSock):
+        reads = 0
+
+        def recv(self, n):
+            self.reads += 1
+            if self.reads == 1:
+                return b'x'
+            raise socket.error(errno.EWOULDBLOCK, 'would block')
+    sock = Sock()
+
+    class Proto(DummyProtocol):
+        def data_received(self, d):
+            for b in B:
+                self.transport.write(b)          # the reactor thread writes from a callback
+    r = R.Reactor(Proto, lambda: sock)
+    state = dict(passes=0)
+
+    def fake_select(rl, wl, xl, timeout=None):
+        state['passes'] += 1
+        if state['passes'] == 1:
+            t = threading.Thread(target=lambda: [r.write(a) for a in A])     # another thread's writes, completed first
+            t.start()
+            t.join()
+            return [x for x in rl], [], []        # the socket has data and the outbox has items
+        if state['passes'] > 400:
+            r.closing = True
+            return [], [], []
+        sock.outcome = ('accept', accept)
+        rr = []
+        for x in rl:
+            if x is r._outbox and ORIG_SELECT([x], [], [], 0)[0]:
+                rr.append(x)
+        ww = [x for x in wl if x is sock]
+        if not rr and not ww:
+            r.closing = True                      # nothing left to do
+        return rr, ww, []
+    old = R.select.select
+    R.select.select = fake_select
+    try:
+        r.run_forever()
+    except Exception as e:  # noqa
+        return 'the reactor loop raised %s: %s' % (type(e).__name__, e)
+    finally:
+        R.select.select = old
+        try:
+            r._outbox._putsocket.close()
+            r._outbox._getsocket.close()
+        except Exception:
+            pass
+    want = b''.join(A) + b''.join(B)
+    got = bytes(sock.sent)
+    if got != want:
+        if sorted(got) == sorted(want) and len(got) == len(want):
+            return ('frames written by another thread BEFORE a protocol callback wrote its own reached the socket AFTER them: '
+                    'wire %r..., enqueue order %r...' % (got[:12], want[:12]))
+        return 'the socket got %d bytes, the frames written amount to %d (first difference at %d)' % (
+            len(got), len(want), next((i for i, (x, y) in enumerate(zip(got, want)) if x != y), min(len(got), len(want))))
+    return None
